@@ -179,18 +179,18 @@ def poison_sites(K):
     for sec, f, bads in CI_POISON:
         if f == "final":
             continue
-        for b in bads:
+        for b in pools.with_generic(bads):
             sites.append({"kind": "sec", "sec": sec, "field": f, "bad": b, "good": K[sec][f]})
     if K["compose"]["label"]:
         for b in ["yes", 1, None]:
             sites.append({"kind": "sec", "sec": "compose", "field": "final", "bad": b, "good": K["compose"]["final"]})
     if K["release"]["is_layered"]:
         for sec, f, bads in BP_POISON:
-            for b in bads:
+            for b in pools.with_generic(bads):
                 sites.append({"kind": "sec", "sec": sec, "field": f, "bad": b, "good": K[sec][f]})
     for v in K["vars"]:
         for f, bads in VAR_POISON:
-            for b in bads:
+            for b in (pools.with_generic(bads) if f not in ("uid", "arches") else bads + ([["zz"], []] if f == "arches" else [])):
                 sites.append({"kind": "var", "var": v["n"], "field": f, "bad": b, "good": v[f]})
         if v["parent"] is not None:
             p = K["vars"][v["parent"]]
@@ -199,7 +199,7 @@ def poison_sites(K):
                 sites.append({"kind": "var", "var": v["n"], "field": "arches", "bad": sorted(v["arches"] + [foreign[0]]), "good": v["arches"]})
         if v["type"] == "layered-product":
             for f, bads in VAR_REL_POISON:
-                for b in bads:
+                for b in pools.with_generic(bads):
                     sites.append({"kind": "var", "var": v["n"], "field": f, "bad": b, "good": v["release"][f[8:]]})
     return sites
 
